@@ -221,7 +221,7 @@ func ToBoolean(ctx *expr.Context, input system.Collection, args ...expr.Expressi
 	// Input reading
 	value, err := system.From(input[0])
 	if err != nil {
-		return nil, err
+		return system.Collection{}, nil // not a primitive, hence not convertible
 	}
 	// Input conversion
 	switch value := value.(type) {
@@ -336,7 +336,7 @@ func ToDecimal(ctx *expr.Context, input system.Collection, args ...expr.Expressi
 	// Input reading
 	value, err := system.From(input[0])
 	if err != nil {
-		return nil, err
+		return system.Collection{}, nil // not a primitive, hence not convertible
 	}
 	// Input conversion
 	switch value.(type) {
@@ -382,7 +382,7 @@ func ToInteger(ctx *expr.Context, input system.Collection, args ...expr.Expressi
 	// Input reading
 	value, err := system.From(input[0])
 	if err != nil {
-		return nil, err
+		return system.Collection{}, nil // not a primitive, hence not convertible
 	}
 	// Input conversion
 	switch value.(type) {
@@ -432,7 +432,7 @@ func ToQuantity(ctx *expr.Context, input system.Collection, args ...expr.Express
 	// Input reading
 	value, err := system.From(input[0])
 	if err != nil {
-		return nil, err
+		return system.Collection{}, nil // not a primitive, hence not convertible
 	}
 	// Input conversion
 	switch value := value.(type) {
